@@ -212,7 +212,10 @@ def builtin_scheme(name):
         data = {"d1": B.noisy_dataset(tt, g)}
     options = {l: {"vary": False} for l in vals if l.startswith(("j.", "irf.s", "irf.dc", "sh."))}
     if name == "general_decay_no_irf_penalty":
-        options["k.3"] = {"expression": "$k.2 * 4"}  # an expression parameter: evaluated by the Parameters object's interpreter
+        # expression parameters, evaluated by the Parameters object's interpreter: k.3 refers to rel.p, an expression
+        # parameter declared after it (same values as the plain numbers they replace: 0.2 and 0.6)
+        options["k.3"] = {"expression": "$rel.p / 3"}
+        options["rel.p"] = {"expression": "$k.2 * 12"}
     return B.make_scheme(md, vals, data, options=options)
 
 
